@@ -15,13 +15,16 @@ case "$FLAV" in
   *) echo "unknown flavour $FLAV" >&2; exit 2 ;;
 esac
 COMMON="-std=gnu99 -I$REPO/include -I$SIM -DCELLO_VERIF -DCELLO_NSTRACE -fno-pie -Wall -Wno-unused -Wno-unknown-pragmas $FL $*"
-WRAP="-Wl,--wrap=malloc,--wrap=calloc,--wrap=realloc,--wrap=free,--wrap=pthread_create,--wrap=pthread_join,--wrap=pthread_mutex_lock,--wrap=pthread_mutex_trylock,--wrap=pthread_mutex_unlock,--wrap=pthread_getspecific,--wrap=fopen,--wrap=fclose"
+WRAP="-Wl,--wrap=malloc,--wrap=calloc,--wrap=realloc,--wrap=free,--wrap=pthread_create,--wrap=pthread_join,--wrap=pthread_mutex_lock,--wrap=pthread_mutex_trylock,--wrap=pthread_mutex_unlock,--wrap=fopen,--wrap=fclose"
 pids=""
 fail=0
+# pthread_getspecific is redirected by a macro for /repo's objects only: under --wrap the sanitizer runtime's own
+# calls (made while it holds internal locks) would become scheduling points too
 for f in "$REPO"/src/*.c "$SIM"/*.c; do
   o="$OUT/$(basename "$f" .c).o"
-  case "$f" in "$SIM"/*) o="$OUT/sim_$(basename "$f" .c).o" ;; esac
-  $CC $COMMON -c "$f" -o "$o" 2> "$o.log" &
+  X="-Dpthread_getspecific=__wrap_pthread_getspecific"
+  case "$f" in "$SIM"/*) o="$OUT/sim_$(basename "$f" .c).o"; X="" ;; esac
+  $CC $COMMON $X -c "$f" -o "$o" 2> "$o.log" &
   pids="$pids $!"
 done
 for p in $pids; do wait $p || fail=1; done
